@@ -123,7 +123,7 @@ pub fn run(tier: &str, only: Option<&Value>) -> i32 {
     let mut rep = Report::new("C10", tier);
     let all = graph_inputs(tier, false);
     let elsewhere = undefined_elsewhere();
-    rep.rule = "E1: every dependency graph over n<=3 types (4 thorough) with one field each = (by value | array | #[base] | pointer) x (any of the n types incl. itself | undefined name) or a built-in, every module assignment up to renaming (<=3 modules, with the needed imports); two-field graphs over a reduced alphabet; chains of length 1..12 declared forward/backward/interleaved and spread over modules; by-value cycles of length 1..6, pointer cycles, cycles broken by one pointer; undefined names in enum base / parameter / return type / extern value; the generated vftable name in every position and relation to its owner; a module whose path equals the path of a type of its parent module. Oracle: fixpoint model of resolvability; on Ok every declared field is in the output with the declared type (syn); on Err the listed types equal the model's set. Small graphs are additionally run under all resolution schedules (E2). distinct = distinct (family, n, model verdict, pyxis verdict, size of unresolved set)".into();
+    rep.rule = "E1: every dependency graph over n<=3 types (4 thorough) with one field each = (by value | array | #[base] | pointer) x (any of the n types incl. itself | undefined name) or a built-in, every module assignment up to renaming (<=3 modules, with the needed imports); two-field graphs over a reduced alphabet; chains of length 1..12 declared forward/backward/interleaved and spread over modules; by-value cycles of length 1..6, pointer cycles, cycles broken by one pointer; undefined names in enum base / parameter / return type / extern value; the generated vftable name in every position and relation to its owner; a module whose path equals the path of a type of its parent module. Oracle: fixpoint model of resolvability; on Ok every declared field is in the output with the declared type (syn); on Err the listed types equal the model's set. Small graphs, and the inputs that refer to a generated vftable name, are additionally run under all resolution schedules (E2). distinct = distinct (family, n, model verdict, pyxis verdict, size of unresolved set)".into();
     rep.assumptions = vec!["types with more than one field are #[packed] so that alignment rules do not mask resolution verdicts".into()];
     let only_i = only.map(|l| (l["space"].as_str().unwrap_or("").to_string(), l["index"].as_u64().unwrap_or(0) as usize, l["ps"].as_u64().unwrap_or(8) as usize));
     for ps in [4usize, 8] {
@@ -263,6 +263,26 @@ pub fn run(tier: &str, only: Option<&Value>) -> i32 {
                 if classes.len() != 1 || !classes.contains(expected) {
                     let detail = ex.outcomes.iter().map(|(k, (o, h, e))| format!("{} <- add {:?} schedule {:?} {}", k.split('|').next().unwrap(), o, h, e.lines().next().unwrap_or(""))).collect::<Vec<_>>().join("\n");
                     rep.violation(Violation { key: "verdict_depends_on_schedule_or_differs_from_model".into(), features: vec![format!("family:{}", g.family)], input: g.input.clone(), ps, detail: format!("model expects {expected}\n{detail}"), locator: json!({"space": "sched", "index": sidx[j], "ps": ps}) });
+                }
+            }
+        }
+    }
+    // E2 on the inputs in which a generated vftable name is referred to (fields, signatures; the owner
+    // unrelated to, embedding or deriving from the referrer): defined names, so every schedule must accept
+    if only.is_none() {
+        let named: Vec<pipe::Input> = elsewhere.iter().filter(|(_, pos, defined)| *defined && *pos == "generated_vftable_name").map(|(i, _, _)| i.clone()).collect();
+        for ps in [4usize, 8] {
+            let outs = util::par_map(named.len(), |j, _| sched::explore(&named[j], ps, &crate::checks::c09::add_orders(named[j].modules.len()), 100_000));
+            for (j, ex) in outs.into_iter().enumerate() {
+                rep.states += ex.states;
+                rep.transitions += ex.transitions;
+                rep.traces += ex.executions;
+                rep.evaluations += ex.executions;
+                rep.count("schedule_explored_generated_name_inputs", 1);
+                let classes: BTreeSet<&str> = ex.outcomes.keys().map(|k| k.split('|').next().unwrap()).collect();
+                if classes.len() != 1 || !classes.contains("ok") {
+                    let detail = ex.outcomes.iter().map(|(k, (o, h, e))| format!("{} <- add {:?} schedule {:?} {}", k.split('|').next().unwrap(), o, h, e.lines().next().unwrap_or(""))).collect::<Vec<_>>().join("\n");
+                    rep.violation(Violation { key: "defined_name_rejected_under_some_schedule".into(), features: vec!["position:generated_vftable_name".into()], input: named[j].clone(), ps, detail, locator: json!({"space": "sched_generated", "index": j, "ps": ps}) });
                 }
             }
         }
